@@ -55,6 +55,8 @@ def texts():
         ("small", "packet A {\n    u8 x,\n}\n"),
         ("ugly", "packet   A{u8 x,string s,}"),
         ("comment", "// leading comment\npacket A {\n  u8 x, // trailing\n}\n"),
+        # characters that are special to printf-style formatting, shells and C strings
+        ("percent", "// 100% of %s %d %v\npacket Fee {\n    u32 rate `fee rate in % of notional %!`, // 50%\n    u8 side,\n}\n"),
         # valid and empty
         ("empty", ""),
         ("blank", "  \n\n"),
